@@ -123,6 +123,8 @@ const fn native_chunks_u8<const K: usize, const C: usize>() -> Out where Const<K
         d = h;
         let back: &[[u8; K]] = GA::<u8, N<K>>::into_chunks(g);
         assert!(back.len() == C);
+        let flat = GA::<u8, N<K>>::slice_from_chunks(g);
+        assert!(flat.len() == C * K);
     }
     {
         let g: &mut [GA<u8, N<K>>] = GA::<u8, N<K>>::from_chunks_mut(&mut src);
@@ -249,6 +251,8 @@ const fn native_chunks_u32<const K: usize, const C: usize>() -> Out where Const<
         d = h;
         let back: &[[u32; K]] = GA::<u32, N<K>>::into_chunks(g);
         assert!(back.len() == C);
+        let flat = GA::<u32, N<K>>::slice_from_chunks(g);
+        assert!(flat.len() == C * K);
     }
     {
         let g: &mut [GA<u32, N<K>>] = GA::<u32, N<K>>::from_chunks_mut(&mut src);
@@ -375,6 +379,8 @@ const fn native_chunks_p3<const K: usize, const C: usize>() -> Out where Const<K
         d = h;
         let back: &[[(u8, u16); K]] = GA::<(u8, u16), N<K>>::into_chunks(g);
         assert!(back.len() == C);
+        let flat = GA::<(u8, u16), N<K>>::slice_from_chunks(g);
+        assert!(flat.len() == C * K);
     }
     {
         let g: &mut [GA<(u8, u16), N<K>>] = GA::<(u8, u16), N<K>>::from_chunks_mut(&mut src);
@@ -501,6 +507,8 @@ const fn native_chunks_unit<const K: usize, const C: usize>() -> Out where Const
         d = h;
         let back: &[[(); K]] = GA::<(), N<K>>::into_chunks(g);
         assert!(back.len() == C);
+        let flat = GA::<(), N<K>>::slice_from_chunks(g);
+        assert!(flat.len() == C * K);
     }
     {
         let g: &mut [GA<(), N<K>>] = GA::<(), N<K>>::from_chunks_mut(&mut src);
